@@ -302,3 +302,24 @@ def c_moment_self(ctx, it, cfg):
     res = getattr(o, cfg['fn'])(*args)
     _check_moment(ctx, o, o.PSD, wts, cfg, res)
     frame(ctx, 'self', o, pre, modifies=[])
+
+
+@REG.contract('changeSizeClasses/covers-populated-range', [T + 'changeSizeClasses', T + 'ThirdMoment', T + '__init__', T + 'reset'],
+              configs=[dict(name='grid[1,13]x6-to-[1,13]x2', old=(1, 13, 6), new=(1, 13, 2)), dict(name='grid[1,13]x6-to-[1,25]x3', old=(1, 13, 6), new=(1, 25, 3))])
+def c_change_small(ctx, it, cfg):
+    """the property's own wording -- "re-meshing preserves the third moment exactly whenever the new grid covers the populated range" -- for concrete grid
+    pairs and EVERY distribution on the old grid; np.interp is modelled exactly here (piecewise linear), the object is built by the real constructor"""
+    P = it.get(PBM_MOD, 'PopulationBalanceModel')
+    mn, mx, nold = cfg['old']
+    o = P(mn, mx, nold, 1, 1000)
+    p = [real(ctx, 'n%d' % i, lambda v: v >= 0) for i in range(nold)]
+    o.fields['PSD'] = NP.array(p)
+    b = [o.PSDbounds.get(i) for i in range(nold + 1)]
+    cMin, cMax, nnew = cfg['new']
+    newmax = max(10 * cMin, cMax)
+    ctx.assume(and_(*[implies(p[i] > 0, and_(b[i] >= cMin, b[i + 1] <= newmax)) for i in range(nold)]))       # the new grid covers the populated range
+    oldV = o.ThirdMoment()
+    o.changeSizeClasses(cMin, cMax, nnew, False)
+    newV = o.ThirdMoment()
+    ctx.prove('third-moment-preserved-when-the-new-grid-covers-the-populated-range', eq(newV, oldV))
+    ctx.prove('canary/volume-always-lost', eq(newV, 0), expect='refuted')
